@@ -313,8 +313,9 @@ def write_inventory(repo: Repo, res: CheckResult) -> None:
             for w in walk_no_nested(fn, include_root=False):
                 if isinstance(w, ast.With) and any("_clone()" in norm(it.context_expr) for it in w.items):
                     in_clone_blocks |= {id(x) for x in ast.walk(w)}
+            al = attr_aliases(fn)
             for node in _nodes_including_closures(fn):
-                store = _store_target(node)
+                store = _store_target(node, al)
                 if store is None:
                     continue
                 root, attr, is_item, text = store
@@ -342,8 +343,20 @@ def _nodes_including_closures(fn: ast.AST):
     yield from ast.walk(fn)
 
 
-def _store_target(node: ast.AST) -> Optional[Tuple[str, str, bool, str]]:
-    """(root name, attribute, is item store / mutation, text) for stores through an attribute of a name"""
+def attr_aliases(fn: ast.AST) -> Dict[str, Tuple[str, str]]:
+    """locals that are plain aliases of an attribute of self / cls: `call_cache = self._call_cache`"""
+    out: Dict[str, Tuple[str, str]] = {}
+    for n in ast.walk(fn):
+        if isinstance(n, ast.Assign) and len(n.targets) == 1 and isinstance(n.targets[0], ast.Name) \
+                and isinstance(n.value, ast.Attribute) and isinstance(n.value.value, ast.Name) and n.value.value.id in ("self", "cls"):
+            out[n.targets[0].id] = (n.value.value.id, n.value.attr)
+    return out
+
+
+def _store_target(node: ast.AST, aliases: Optional[Dict[str, Tuple[str, str]]] = None) -> Optional[Tuple[str, str, bool, str]]:
+    """(root name, attribute, is item store / mutation, text) for stores through an attribute of a name (or through a
+    local alias of such an attribute when `aliases` is given)"""
+    aliases = aliases or {}
     targets: List[ast.expr] = []
     if isinstance(node, ast.Assign):
         targets = list(node.targets)
@@ -360,6 +373,8 @@ def _store_target(node: ast.AST) -> Optional[Tuple[str, str, bool, str]]:
             b = b.value
         if isinstance(b, ast.Attribute) and isinstance(b.value, ast.Name):
             return b.value.id, b.attr, True, norm(node)[:100]
+        if isinstance(b, ast.Name) and b.id in aliases:
+            return aliases[b.id][0], aliases[b.id][1], True, norm(node)[:100]
         return None
     for t in targets:
         base = t
@@ -369,6 +384,8 @@ def _store_target(node: ast.AST) -> Optional[Tuple[str, str, bool, str]]:
             is_item = True
         if isinstance(base, ast.Attribute) and isinstance(base.value, ast.Name):
             return base.value.id, base.attr, is_item, norm(node)[:100]
+        if is_item and isinstance(base, ast.Name) and base.id in aliases:
+            return aliases[base.id][0], aliases[base.id][1], True, norm(node)[:100]
     return None
 
 
